@@ -1020,6 +1020,9 @@ def platform_call(fname: Optional[str], fval: Optional[V], call: ast.Call, args:
         if isinstance(r, list):
             r = tuple(r)
         return K(r)
+    if fname in ("keyword.iskeyword", "iskeyword", "keyword.issoftkeyword") and len(args) == 1 and isinstance(args[0], K) and not kwargs:
+        import keyword as _kw  # platform table of reserved words, read as data
+        return K(bool(isinstance(args[0].v, str) and (_kw.iskeyword(args[0].v) if "soft" not in fname else _kw.issoftkeyword(args[0].v))))
     if fname == "bool" and len(args) == 1 and isinstance(args[0], K):
         return K(bool(args[0].v))
     if fname in ("os.path.splitext", "os.path.basename", "os.path.dirname", "os.path.join", "posixpath.splitext") and args \
